@@ -98,7 +98,7 @@ def grid_cases(draw):
         case["spacing"] = draw(gen.spacing_for(big[0], big[1], 14))
     if case["gridder"] in ("trend", "knn", "checker"):
         case["ncomp"] = 1
-    case["extra"] = [draw(gen.finite(-100, 100)) for _ in range(case["n_extra"])]
+    case["extra"] = [draw(st.one_of(gen.finite(-100, 100), st.just(0.0))) for _ in range(case["n_extra"])]
     case["nonuniform"] = draw(st.booleans())
     case["explicit_region"] = draw(st.booleans())
     case["descending"] = draw(st.sampled_from(["none", "none", "north", "east", "both"]))
@@ -251,7 +251,7 @@ def profile_cases(draw):
     elif shape_kind == "vertical":
         p2[0] = p1[0]
     return dict(p1=p1, p2=p2, size=draw(st.integers(1, 30)), ncomp=draw(st.integers(1, 3)), projection=draw(proj_desc), custom_dims=draw(st.booleans()),
-                custom_names=draw(st.booleans()), n_extra=draw(st.integers(0, 2)), extra=[draw(gen.finite(-10, 10)) for _ in range(2)])
+                custom_names=draw(st.booleans()), n_extra=draw(st.integers(0, 2)), extra=[draw(st.one_of(gen.finite(-10, 10), st.just(0.0))) for _ in range(2)])
 
 
 def check_profile(case, ctx):
